@@ -120,6 +120,18 @@ class Envelope:
         if self.header.version != 2:
             raise ValueError("Unsupported envelope type")
 
+        # The header stores its own size (excluding the fixed part) and is padded to a multiple of the block size,
+        # the attributes can make it span more than one block
+        header_size = len(c_envelope.EnvelopeFileHeader) + self.header.size
+        header_size += -header_size % ENVELOPE_BLOCK_SIZE
+        if header_size > ENVELOPE_BLOCK_SIZE:
+            self.fh.seek(0, io.SEEK_END)
+            if header_size > self.fh.tell():
+                raise ValueError("Invalid envelope header size")
+            self.fh.seek(0)
+            header_buf = io.BytesIO(self.fh.read(header_size))
+            header_buf.seek(len(c_envelope.EnvelopeFileHeader))
+
         self.version = self.header.version
         self.attributes = _read_envelope_attributes(header_buf)
         for req in ("vmware.keyInfo", "vmware.cipherName", "vmware.keyHash"):
@@ -143,8 +155,8 @@ class Envelope:
 
         self.fh.seek(0, io.SEEK_END)
         size = self.fh.tell()
-        self.size = size - (2 * ENVELOPE_BLOCK_SIZE)
-        self.data = RangeStream(self.fh, ENVELOPE_BLOCK_SIZE, self.size)
+        self.size = size - header_size - ENVELOPE_BLOCK_SIZE
+        self.data = RangeStream(self.fh, header_size, self.size)
 
     def decrypt(self, key: bytes, aad: bytes | None = None) -> bytes:
         """Decrypt the data in this envelope.
